@@ -2,6 +2,7 @@ package main
 
 import (
 	"fmt"
+	"os"
 	"go/token"
 	"go/types"
 	"strings"
@@ -162,6 +163,7 @@ func (x *fx) execute(loopWrites map[int]*loopInfo) {
 
 	order := x.topoOrder()
 	edgePC := map[[2]int]string{}
+	skipTail := map[int]bool{}
 	for _, b := range order {
 		x.curBlock = b
 		// incoming forward edges
@@ -180,6 +182,41 @@ func (x *fx) execute(loopWrites map[int]*loopInfo) {
 				continue // predecessor unreachable
 			}
 			ins = append(ins, inEdge{p, pc, pi})
+		}
+		// Exit tail: a chain of single-successor blocks ending in a Return whose
+		// first block has several predecessors (the common exit of a function
+		// with deferred calls and result cells).  It is executed once per
+		// incoming edge instead of merging the memories of all return paths.
+		if skipTail[b.Index] {
+			continue
+		}
+		if b.Index != 0 && len(ins) > 1 && x.loops[b.Index] == nil {
+			if chain := x.exitChain(b); chain != nil {
+				for _, e := range ins {
+					x.curPC = e.pc
+					x.curMem = x.blockMem[e.from.Index]
+					for ci, cb := range chain {
+						x.curBlock = cb
+						for _, in := range cb.Instrs {
+							if phi, ok := in.(*ssa.Phi); ok {
+								if ci == 0 {
+									x.vals[phi] = x.valOf(phi.Edges[e.idx])
+								} else {
+									x.vals[phi] = x.valOf(phi.Edges[0])
+								}
+								continue
+							}
+							x.instr(in)
+						}
+					}
+				}
+				for _, cb := range chain {
+					skipTail[cb.Index] = true
+					x.blockPC[cb.Index] = x.curPC
+					x.blockMem[cb.Index] = x.curMem
+				}
+				continue
+			}
 		}
 		if b.Index == 0 {
 			x.curPC = "true"
@@ -417,7 +454,33 @@ func (x *fx) loopHeader(li *loopInfo, phiEntry map[*ssa.Phi]*Val) {
 		}
 	}
 	pre := x.curMem
-	h.frame = x.frameVsEntry(pre)
+	baseFrame := x.frameVsEntry(pre)
+	// locals of this activation that the loop body never stores to keep their
+	// contents across the loop (unmodelled callees cannot reach them)
+	storedInLoop := map[*ssa.Alloc]bool{}
+	for bi := range li.body {
+		for _, in := range x.fn.Blocks[bi].Instrs {
+			if st, ok := in.(*ssa.Store); ok {
+				if a := rootAlloc(st.Addr); a != nil {
+					storedInLoop[a] = true
+				}
+			}
+		}
+	}
+	var keptLocals []string
+	for _, r := range x.localRefs {
+		if a := x.localAlloc[r]; a != nil && !storedInLoop[a] {
+			keptLocals = append(keptLocals, r)
+		}
+	}
+	h.frame = func(n, nv, ov string) {
+		baseFrame(n, nv, ov)
+		if !strings.HasPrefix(n, "$") {
+			for _, r := range keptLocals {
+				x.assume(fmt.Sprintf("(= (select %s %s) (select %s %s))", nv, r, ov, r))
+			}
+		}
+	}
 	x.curMem = h
 	phiNow := map[*ssa.Phi]*Val{}
 	for _, in := range li.header.Instrs {
@@ -752,8 +815,25 @@ func (x *fx) boundsCheck(idx, n, what string) {
 func (x *fx) alloc(i *ssa.Alloc) {
 	t := i.Type().Underlying().(*types.Pointer).Elem()
 	ref := x.newRef(i.Name())
+	if os.Getenv("VCGEN_DEBUG_ALLOC") != "" && x.pass == 2 {
+		cls, ok := capturedOnly(i)
+		var kinds []string
+		for _, r := range *i.Referrers() {
+			kinds = append(kinds, fmt.Sprintf("%T", r))
+		}
+		fmt.Fprintf(os.Stderr, "alloc %s (%s) heap=%v capturedOnly=%v closures=%d immutable=%v refs=%v\n", i.Name(), i.Comment, i.Heap, ok, len(cls), ok && immutableCell(i, cls), uniqStr(kinds))
+	}
 	if !i.Heap {
 		x.localRefs = append(x.localRefs, ref)
+		x.localAlloc[ref] = i
+	} else if cls, ok := capturedOnly(i); ok && immutableCell(i, cls) {
+		// captured by closures but assigned exactly once (e.g. a parameter): no callee can change it
+		x.localRefs = append(x.localRefs, ref)
+		x.localAlloc[ref] = i
+	} else if cls, ok := capturedOnly(i); ok {
+		// a variable captured by closures of this function: only those closures
+		// (or a callee they are handed to) can reach its cell
+		x.cellRefs = append(x.cellRefs, cellRef{ref: ref, closures: cls})
 	}
 	x.vals[i] = &Val{T: i.Type(), S: fmt.Sprintf("(mk-ptr %s %s)", ref, x.idxConst(0))}
 	x.zeroInit(t, ref)
@@ -1149,14 +1229,21 @@ func (x *fx) ret(i *ssa.Return) {
 				return x.valOf(i.Results[k])
 			}
 		}
-		return pe.look(name)
+		if v := pe.look(name); v != nil {
+			return v
+		}
+		// locals visible at this return (their value there)
+		return x.instrEnv(i).look(name)
 	}
 	env.old = x.paramEnv(x.entryMem)
 	// vacuity canary: this return must be reachable (placed before the
 	// postconditions, which are assumed once checked)
 	x.obs = append(x.obs, &Oblig{Fn: x.c.Pkg + "." + x.c.Name, Name: fmt.Sprintf("%s.%s#vacuity:ret%d", x.pkgShort(), x.cname(), x.retCount), Kind: "canary", PC: x.curPC, Goal: "false", NSteps: len(x.steps), Expect: "sat", Desc: "return is reachable under the contract", fx: x})
 	for k, cl := range x.c.Ensures {
-		g := x.evalBool(cl.E, env)
+		g, skip := x.evalEnsures(cl.E, env)
+		if skip {
+			continue // mentions a local variable that is not in scope at this return
+		}
 		if o := x.oblige("post", clauseLabel(cl, k), g, "postcondition: "+cl.Src); o != nil {
 			o.Src, o.Line = cl.Src, cl.Line
 			o.Name = fmt.Sprintf("%s.%s#post:%s@ret%d", x.pkgShort(), x.cname(), clauseLabel(cl, k), x.retCount)
@@ -1188,4 +1275,181 @@ func (x *fx) blockReaches(from, to *ssa.BasicBlock) bool {
 		return false
 	}
 	return dfs(from)
+}
+
+// exitChain returns the chain of blocks b, b', ..., R where every block has
+// exactly one successor (the next one), all but the first have exactly one
+// predecessor, none is a loop header, and R ends in a Return; nil otherwise.
+func (x *fx) exitChain(b *ssa.BasicBlock) []*ssa.BasicBlock {
+	var chain []*ssa.BasicBlock
+	cur := b
+	for steps := 0; steps < 8; steps++ {
+		if x.loops[cur.Index] != nil || len(cur.Instrs) == 0 {
+			return nil
+		}
+		chain = append(chain, cur)
+		switch cur.Instrs[len(cur.Instrs)-1].(type) {
+		case *ssa.Return:
+			return chain
+		case *ssa.Jump:
+			nxt := cur.Succs[0]
+			if len(nxt.Preds) != 1 {
+				return nil
+			}
+			cur = nxt
+		default:
+			return nil
+		}
+	}
+	return nil
+}
+
+type cellRef struct {
+	ref      string
+	closures []*ssa.MakeClosure
+}
+
+// capturedOnly: the alloc escapes only by being bound into closures created in
+// this function (it is otherwise just loaded, stored and addressed).
+func capturedOnly(a *ssa.Alloc) ([]*ssa.MakeClosure, bool) {
+	var cls []*ssa.MakeClosure
+	var ok func(v ssa.Value, depth int) bool
+	ok = func(v ssa.Value, depth int) bool {
+		if depth > 4 || v.Referrers() == nil {
+			return false
+		}
+		for _, r := range *v.Referrers() {
+			switch u := r.(type) {
+			case *ssa.UnOp, *ssa.DebugRef:
+			case *ssa.Store:
+				if u.Val == v {
+					return false // the address itself is stored somewhere
+				}
+			case *ssa.MakeClosure:
+				cls = append(cls, u)
+			case *ssa.FieldAddr:
+				if !ok(u, depth+1) {
+					return false
+				}
+			case *ssa.IndexAddr:
+				if !ok(u, depth+1) {
+					return false
+				}
+			default:
+				return false
+			}
+		}
+		return true
+	}
+	if !ok(a, 0) {
+		return nil, false
+	}
+	return cls, len(cls) > 0
+}
+
+// immutableCell: the captured variable is stored to exactly once in the
+// enclosing function and never stored to by any closure that captures it.
+func immutableCell(a *ssa.Alloc, cls []*ssa.MakeClosure) bool {
+	stores := 0
+	for _, r := range *a.Referrers() {
+		if st, ok := r.(*ssa.Store); ok && st.Addr == a {
+			stores++
+		}
+		switch r.(type) {
+		case *ssa.FieldAddr, *ssa.IndexAddr:
+			return false // addressed in parts: could be written through
+		}
+	}
+	if stores > 1 {
+		return false
+	}
+	var onlyLoaded func(v ssa.Value, depth int) bool
+	onlyLoaded = func(v ssa.Value, depth int) bool {
+		if depth > 3 || v.Referrers() == nil {
+			return false
+		}
+		for _, r := range *v.Referrers() {
+			switch u := r.(type) {
+			case *ssa.UnOp, *ssa.DebugRef:
+			case *ssa.MakeClosure:
+				fn := u.Fn.(*ssa.Function)
+				for k, b := range u.Bindings {
+					if b == v && !onlyLoaded(fn.FreeVars[k], depth+1) {
+						return false
+					}
+				}
+			default:
+				return false
+			}
+		}
+		return true
+	}
+	for _, cl := range cls {
+		fn := cl.Fn.(*ssa.Function)
+		for k, b := range cl.Bindings {
+			if b == a && !onlyLoaded(fn.FreeVars[k], 0) {
+				return false
+			}
+		}
+	}
+	return true
+}
+
+func uniqStr(ss []string) []string {
+	m := map[string]bool{}
+	var out []string
+	for _, s := range ss {
+		if !m[s] {
+			m[s] = true
+			out = append(out, s)
+		}
+	}
+	return out
+}
+
+// rootAlloc: the local variable an address is derived from (through field and index selection).
+func rootAlloc(v ssa.Value) *ssa.Alloc {
+	for depth := 0; depth < 6; depth++ {
+		switch u := v.(type) {
+		case *ssa.Alloc:
+			return u
+		case *ssa.FieldAddr:
+			v = u.X
+		case *ssa.IndexAddr:
+			v = u.X
+		default:
+			return nil
+		}
+	}
+	return nil
+}
+
+// evalEnsures evaluates a postcondition at a return; a clause that mentions a
+// local variable of the function which is not in scope at this return is
+// skipped there (it constrains only the returns where the variable exists).
+func (x *fx) evalEnsures(e *Expr, env *specEnv) (g string, skip bool) {
+	defer func() {
+		if r := recover(); r != nil {
+			if se, ok := r.(specErr); ok && strings.HasPrefix(string(se), "unbound name ") {
+				name := strings.Fields(strings.TrimPrefix(string(se), "unbound name "))[0]
+				if x.isLocalName(name) {
+					skip = true
+					return
+				}
+			}
+			panic(r)
+		}
+	}()
+	return x.evalBool(e, env), false
+}
+
+func (x *fx) isLocalName(name string) bool {
+	for _, b := range x.fn.Blocks {
+		for _, in := range b.Instrs {
+			if d, ok := in.(*ssa.DebugRef); ok && d.Object() != nil && d.Object().Name() == name {
+				return true
+			}
+		}
+	}
+	return false
 }
